@@ -416,7 +416,7 @@ func (p *queryPlan) processClause(ctx context.Context, cls *semantic.GraphClause
 		})
 		// Data is new.
 		stmLimit := int64(0)
-		if len(p.stm.GraphPatternClauses()) == 1 && len(p.stm.GroupBy()) == 0 && len(p.stm.HavingExpression()) == 0 {
+		if p.canPushLimitDown(cls) {
 			stmLimit = p.stm.Limit()
 		}
 		tbl, err := simpleFetch(ctx, p.grfs, cls, lo, stmLimit, p.chanSize, p.tracer)
@@ -444,6 +444,28 @@ func (p *queryPlan) processClause(ctx context.Context, cls *semantic.GraphClause
 		}
 	})
 	return false, p.specifyClauseWithTable(ctx, cls, lo)
+}
+
+// canPushLimitDown returns true if the limit of the statement can be used to
+// limit the number of triples retrieved for the clause without changing the
+// result. This is only the case if every retrieved triple becomes one row of
+// the result and the rows are returned in the order they are retrieved.
+func (p *queryPlan) canPushLimitDown(cls *semantic.GraphClause) bool {
+	if len(p.stm.GraphPatternClauses()) != 1 || len(p.stm.GroupBy()) != 0 || len(p.stm.HavingExpression()) != 0 || len(p.stm.OrderByConfig()) != 0 {
+		return false
+	}
+	// The clause may discard triples after they are retrieved.
+	if cls.PID != "" || cls.OID != "" || cls.PAnchorBinding != "" || cls.PAnchorAlias != "" ||
+		cls.OTypeAlias != "" || cls.OIDAlias != "" || cls.OAnchorBinding != "" || cls.OAnchorAlias != "" {
+		return false
+	}
+	// A binding used more than once also discards triples.
+	for _, cnt := range cls.BindingsMap() {
+		if cnt > 1 {
+			return false
+		}
+	}
+	return true
 }
 
 // getBoundValueForComponent return the unique bound value if available on
@@ -527,7 +549,7 @@ func (p *queryPlan) addSpecifiedData(ctx context.Context, r table.Row, cls *sema
 	})
 
 	stmLimit := int64(0)
-	if len(p.stm.GraphPatternClauses()) == 1 && len(p.stm.GroupBy()) == 0 && len(p.stm.HavingExpression()) == 0 {
+	if p.canPushLimitDown(cls) {
 		stmLimit = p.stm.Limit()
 	}
 	tbl, err := simpleFetch(ctx, p.grfs, cls, lo, stmLimit, p.chanSize, p.tracer)
